@@ -151,6 +151,14 @@ func (g *genRns) Block(w *World, b int) Block {
 			}
 		}
 	}
+	for i := range steps {
+		if steps[i].Kind == "tx" && rng.Chance(1, 25) {
+			if steps[i].N == nil {
+				steps[i].N = map[string]int64{}
+			}
+			steps[i].N["upper"] = 1
+		}
+	}
 	blk.Steps = g.net.Apply(rng, b, len(w.nodes), steps)
 	return blk
 }
@@ -276,12 +284,12 @@ func (o *oracleC08) AfterStep(w *World, st *Step, msgs []sdk.Msg, res *abci.Resp
 			continue
 		}
 		// a live name changed (or vanished)
-		ownerChanged := !ok || qn.Value != pn.Value
+		ownerChanged := !ok || canonAddr(qn.Value) != canonAddr(pn.Value)
 		if res.Code != 0 {
 			w.Violate("C08:failed-but-changed:"+kind, "failed %s changed live name %s", kind, key)
 			continue
 		}
-		byOwner := signer == pn.Value && target == key
+		byOwner := signer == canonAddr(pn.Value) && target == key
 		switch x := m.(type) {
 		case *rnstypes.MsgTransfer:
 			if !byOwner {
@@ -337,7 +345,10 @@ func (o *oracleC08) AfterStep(w *World, st *Step, msgs []sdk.Msg, res *abci.Resp
 			}
 			w.Probe("buy_ok")
 			price, err := sdk.ParseCoinNormalized(sale.Price)
-			if err == nil {
+			if signer == canonAddr(pn.Value) {
+				// the owner bought its own listing under another spelling of its address: it pays itself
+				w.Probe("self_purchase")
+			} else if err == nil {
 				got := post.bal.Of(pn.Value, price.Denom).Sub(o.pre.bal.Of(pn.Value, price.Denom))
 				if !got.Equal(price.Amount) {
 					w.Violate("C08:seller-not-paid", "sale of %s for %s paid the previous owner %s", key, price, got)
@@ -438,8 +449,8 @@ func (o *oracleC09) AfterStep(w *World, st *Step, msgs []sdk.Msg, res *abci.Resp
 	}
 	switch m := msgs[0].(type) {
 	case *rnstypes.MsgBid:
-		key := m.Creator + target
-		up, down := coinsDelta(o.pre.bal, post.bal, m.Creator)
+		key := canonAddr(m.Creator) + target
+		up, down := coinsDelta(o.pre.bal, post.bal, canonAddr(m.Creator))
 		cur := o.escrow[key]
 		cur = cur.Add(down...)
 		if !up.IsZero() {
@@ -456,8 +467,8 @@ func (o *oracleC09) AfterStep(w *World, st *Step, msgs []sdk.Msg, res *abci.Resp
 		w.Probe("bid_ok")
 		w.NonTrivial()
 	case *rnstypes.MsgCancelBid:
-		key := m.Creator + target
-		up, down := coinsDelta(o.pre.bal, post.bal, m.Creator)
+		key := canonAddr(m.Creator) + target
+		up, down := coinsDelta(o.pre.bal, post.bal, canonAddr(m.Creator))
 		if !down.IsZero() || !up.IsEqual(o.escrow[key]) {
 			w.Violate("C09:cancel-refund≠escrow", "cancelling the bid on %s returned %s to %s, it had escrowed %s", target, up, m.Creator, o.escrow[key])
 		}
@@ -467,8 +478,8 @@ func (o *oracleC09) AfterStep(w *World, st *Step, msgs []sdk.Msg, res *abci.Resp
 		delete(o.escrow, key)
 		w.Probe("cancel_ok")
 	case *rnstypes.MsgAcceptBid:
-		key := m.From + target
-		up, _ := coinsDelta(o.pre.bal, post.bal, m.Creator)
+		key := canonAddr(m.From) + target
+		up, _ := coinsDelta(o.pre.bal, post.bal, canonAddr(m.Creator))
 		if !up.IsEqual(o.escrow[key]) {
 			w.Violate("C09:accept-pay≠bid", "accepting the bid of %s on %s paid the owner %s, escrowed %s", m.From, target, up, o.escrow[key])
 		}
@@ -519,6 +530,7 @@ func (o *oracleC16) AfterStep(w *World, st *Step, msgs []sdk.Msg, res *abci.Resp
 		return
 	}
 	initAddrs()
+	creator = canonAddr(creator)
 	post := readRns(w)
 	key, _ := rnsMsgName(msgs[0])
 	h := w.height
